@@ -139,12 +139,12 @@ type histEnv struct {
 
 func (e *histEnv) digestArgs() string {
 	var sb strings.Builder
-	for _, k := range []string{"leaf", "or", "notand", "fn", "andnull", "nested"} {
+	for _, k := range []string{"leaf", "or", "notand", "fn", "andnull", "nested", "colIF", "colFI"} {
 		sb.WriteString(e.clauses[k].String())
 		sb.WriteByte(';')
 	}
 	fmt.Fprintf(&sb, "%v;%v;%v;%v;", e.orders1, e.orders2, e.selectCol, e.dropCol)
-	for _, k := range []string{"const", "fn1", "fn2", "upper", "fconst"} {
+	for _, k := range []string{"const", "fn1", "fn2", "upper", "upperE", "fconst"} {
 		for _, in := range e.instr[k] {
 			fmt.Fprintf(&sb, "%s<-%s,%s;", in.DstCol, in.SrcCol1, in.SrcCol2)
 		}
@@ -170,6 +170,9 @@ func newHistEnv() *histEnv {
 		// sub-clauses that hand their receiver through unchanged before a filtering leaf
 		"andnull": qframe.And(qframe.Null(), qframe.Filter{Column: "i", Comparator: ">", Arg: 1}),
 		"nested":  qframe.And(qframe.Or(qframe.Null()), qframe.And(qframe.Null(), qframe.Filter{Column: "k", Comparator: "=", Arg: 1}), qframe.Filter{Column: "i", Comparator: "<", Arg: 3}),
+		// column-to-column comparisons across int and float (one side is promoted for the comparison)
+		"colIF": qframe.Filter{Column: "i", Comparator: ">", Arg: types.ColumnName("f")},
+		"colFI": qframe.Filter{Column: "f", Comparator: "<=", Arg: types.ColumnName("k")},
 	}
 	e.orders1 = []qframe.Order{{Column: "k"}}
 	e.orders2 = []qframe.Order{{Column: "e", Reverse: true, NullLast: true}, {Column: "i"}}
@@ -180,6 +183,7 @@ func newHistEnv() *histEnv {
 		"fn1":    {{Fn: func(x int) int { return x + 1 }, DstCol: "i", SrcCol1: "i"}},
 		"fn2":    {{Fn: func(x, y int) int { return x*10 + y }, DstCol: "n2", SrcCol1: "i", SrcCol2: "k"}},
 		"upper":  {{Fn: "ToUpper", DstCol: "s", SrcCol1: "s"}},
+		"upperE": {{Fn: "ToUpper", DstCol: "e", SrcCol1: "e"}},
 		"fconst": {{Fn: 9, DstCol: "i"}},
 	}
 	e.aggs = []qframe.Aggregation{{Fn: "sum", Column: "i"}, {Fn: "count", Column: "s", As: "cnt"},
@@ -258,6 +262,8 @@ func c01Ops() []histOp {
 		frameOp("Filter(fn)", func(e *histEnv, q qframe.QFrame) qframe.QFrame { return q.Filter(e.clauses["fn"]) }),
 		frameOp("Filter(And(Null,leaf))", func(e *histEnv, q qframe.QFrame) qframe.QFrame { return q.Filter(e.clauses["andnull"]) }),
 		frameOp("Filter(And(Or(Null),And(Null,leaf),leaf))", func(e *histEnv, q qframe.QFrame) qframe.QFrame { return q.Filter(e.clauses["nested"]) }),
+		frameOp("Filter(i>col f)", func(e *histEnv, q qframe.QFrame) qframe.QFrame { return q.Filter(e.clauses["colIF"]) }),
+		frameOp("Filter(f<=col k)", func(e *histEnv, q qframe.QFrame) qframe.QFrame { return q.Filter(e.clauses["colFI"]) }),
 		frameOp("Sort(k)", func(e *histEnv, q qframe.QFrame) qframe.QFrame { return q.Sort(e.orders1...) }),
 		frameOp("Sort(e desc nulllast,i)", func(e *histEnv, q qframe.QFrame) qframe.QFrame { return q.Sort(e.orders2...) }),
 		frameOp("Slice(interior)", func(e *histEnv, q qframe.QFrame) qframe.QFrame {
@@ -282,6 +288,7 @@ func c01Ops() []histOp {
 		frameOp("Apply(fn1 i->i)", func(e *histEnv, q qframe.QFrame) qframe.QFrame { return q.Apply(e.instr["fn1"]...) }),
 		frameOp("Apply(fn2 i,k->n2)", func(e *histEnv, q qframe.QFrame) qframe.QFrame { return q.Apply(e.instr["fn2"]...) }),
 		frameOp("Apply(ToUpper s->s)", func(e *histEnv, q qframe.QFrame) qframe.QFrame { return q.Apply(e.instr["upper"]...) }),
+		frameOp("Apply(ToUpper e->e)", func(e *histEnv, q qframe.QFrame) qframe.QFrame { return q.Apply(e.instr["upperE"]...) }),
 		frameOp("FilteredApply(i>1,const->i)", func(e *histEnv, q qframe.QFrame) qframe.QFrame {
 			return q.FilteredApply(e.clauses["leaf"], e.instr["fconst"]...)
 		}),
